@@ -483,7 +483,7 @@ class Fn:
                 if a[2] != "nat" or b[2] != "space" or a[1] or b[1] or lty != "nat": fail(s, "_ensure_node arguments")
                 return f"(let '(d1_, c_) := ensure_node N sd_ (Some {a[0]}) {b[0]} in let sd_ := d1_ in let {name} := c_ in {self.block(rest)})"
             # X = sd.node_successors(node, compute=True)
-            if self.is_call(val, "node_successors") and self.is_sd(val.func.value):
+            if self.is_call(val, "node_successors") and self.is_sd(val.func.value) and val.keywords:
                 kw = val.keywords
                 if len(val.args) != 1 or len(kw) != 1 or kw[0].arg != "compute" or not (isinstance(kw[0].value, ast.Constant) and kw[0].value.value is True):
                     fail(s, "node_successors arguments")
